@@ -24,6 +24,35 @@ class _Found(Exception):
     other exception - including AssertionError from harness code - is a harness error)."""
 
 
+class CaseTimeout(BaseException):
+    """A single generated case exceeded its time budget (BaseException: code under test that
+    catches Exception must not swallow it)."""
+
+
+def time_limit(seconds):
+    """Context manager: raise CaseTimeout in the main thread after `seconds` (None: no limit)."""
+    import contextlib
+
+    @contextlib.contextmanager
+    def cm():
+        if not seconds:
+            yield
+            return
+
+        def handler(signum, frame):
+            raise CaseTimeout()
+
+        old = signal.signal(signal.SIGALRM, handler)
+        signal.setitimer(signal.ITIMER_REAL, float(seconds))
+        try:
+            yield
+        finally:
+            signal.setitimer(signal.ITIMER_REAL, 0.0)
+            signal.signal(signal.SIGALRM, old)
+
+    return cm()
+
+
 def hyp_search(
     prop,
     strategy,
@@ -37,8 +66,13 @@ def hyp_search(
     max_buckets=4,
     shrink=True,
     sample_limit=3,
+    case_timeout=900.0,
 ):
-    """Run `check` over `strategy` with Hypothesis; record into `result` (ShardResult)."""
+    """Run `check` over `strategy` with Hypothesis; record into `result` (ShardResult).
+
+    case_timeout (seconds): a single case that runs longer is abandoned and counted as
+    inconclusive (a changed hypnotoad that loops forever must not hang the check, and a time
+    budget hit is never a violation)."""
     import hypothesis
     from hypothesis import HealthCheck, Phase, given, settings
 
@@ -52,7 +86,14 @@ def hyp_search(
         state = {"target": None, "last": None}
 
         def body(case):
-            fails = check(case)
+            try:
+                with time_limit(case_timeout):
+                    fails = check(case)
+            except CaseTimeout:
+                result.inconclusive += 1
+                result.bump("inconclusive/case-timeout")
+                result.count(case, nontrivial=False)
+                return
             nt = bool(nontrivial(case)) if nontrivial is not None else True
             result.count(case, nontrivial=nt)
             if nt:
@@ -123,28 +164,115 @@ def _shard_entry(args):
         return ("error", traceback.format_exc())
 
 
-def run_shards(fn_module, fn_name, kwargs_list, processes=None):
+def _job_child(conn, job):
+    try:
+        os.setsid()  # own process group: the watchdog can kill the shard with its children
+    except OSError:
+        pass
+    try:
+        out = _shard_entry(job)
+    except BaseException:  # noqa: BLE001
+        out = ("error", traceback.format_exc())
+    try:
+        conn.send(out)
+        conn.close()
+    finally:
+        sys.stdout.flush()
+        sys.stderr.flush()
+        os._exit(0)
+
+
+def run_jobs(jobs, processes=None, shard_timeout=None):
+    """Run every (module, function, kwargs) job in its own forked process, at most `processes`
+    at a time. Returns [(status, payload)] in job order; status is "ok", "error" (harness error,
+    payload = traceback) or "timeout" (the shard ran longer than shard_timeout seconds and was
+    killed together with its children: inconclusive, never a violation)."""
+    import time
+    from multiprocessing.connection import wait
+
+    if processes is None:
+        processes = min(len(jobs), os.cpu_count() or 1)
+    processes = max(1, processes)
+    if shard_timeout is None:
+        shard_timeout = float(os.environ.get("VF_SHARD_TIMEOUT", "3600"))
+    ctx = multiprocessing.get_context("fork")
+    outs = [None] * len(jobs)
+    pending = list(range(len(jobs)))
+    running = {}  # conn -> (index, process, start)
+
+    def kill(proc):
+        try:
+            os.killpg(proc.pid, signal.SIGKILL)
+        except (ProcessLookupError, PermissionError):
+            pass
+        if proc.is_alive():
+            proc.kill()
+        proc.join(5)
+
+    try:
+        while pending or running:
+            while pending and len(running) < processes:
+                i = pending.pop(0)
+                parent, child = ctx.Pipe(duplex=False)
+                sys.stdout.flush()
+                sys.stderr.flush()
+                proc = ctx.Process(target=_job_child, args=(child, jobs[i]))
+                proc.start()
+                child.close()
+                running[parent] = (i, proc, time.monotonic())
+            ready = wait(list(running), timeout=1.0)
+            for conn in ready:
+                i, proc, _ = running.pop(conn)
+                try:
+                    outs[i] = conn.recv()
+                except (EOFError, OSError):
+                    outs[i] = ("error", "shard process died without a result (exit code %r)" % (proc.exitcode,))
+                conn.close()
+                proc.join(5)
+                kill(proc)  # children a shard left behind (ParallelMap workers)
+            now = time.monotonic()
+            for conn in list(running):
+                i, proc, t0 = running[conn]
+                if now - t0 > shard_timeout:
+                    running.pop(conn)
+                    kill(proc)
+                    conn.close()
+                    outs[i] = ("timeout", "shard %r exceeded %.0f s" % (jobs[i][1:], shard_timeout))
+    finally:
+        for conn, (i, proc, _) in running.items():
+            kill(proc)
+    return outs
+
+
+def merge_job_outputs(run, outs):
+    """Merge run_jobs output into a Run: harness errors raise, timeouts count as inconclusive."""
+    for status, payload in outs:
+        if status == "error":
+            raise HarnessError("shard failed:\n" + str(payload))
+        if status == "timeout":
+            run.inconclusive += 1
+            run.bump("inconclusive/shard-timeout")
+            print("INCONCLUSIVE: " + str(payload), flush=True)
+            continue
+        run.merge_shard(payload)
+
+
+def run_shards(fn_module, fn_name, kwargs_list, processes=None, shard_timeout=None):
     """Run fn(**kwargs) for every kwargs in its own process; returns list of result dicts.
 
-    Raises HarnessError if any shard raised (never converted into a violation)."""
-    if processes is None:
-        processes = min(len(kwargs_list), os.cpu_count() or 1)
-    processes = max(1, processes)
+    Raises HarnessError if any shard raised (never converted into a violation). A shard killed by
+    the watchdog yields an empty result with inconclusive=1."""
     jobs = [(fn_module, fn_name, kw) for kw in kwargs_list]
-    if processes == 1 or len(jobs) == 1:
-        outs = [_shard_entry(j) for j in jobs]
-    else:
-        # ProcessPoolExecutor workers are not daemonic, so shards may start child processes
-        # themselves (ParallelMap workers in C13)
-        import concurrent.futures
-
-        ctx = multiprocessing.get_context("fork")
-        with concurrent.futures.ProcessPoolExecutor(processes, mp_context=ctx) as ex:
-            outs = list(ex.map(_shard_entry, jobs))
     results = []
-    for status, payload in outs:
-        if status != "ok":
-            raise HarnessError("shard failed:\n" + payload)
+    for status, payload in run_jobs(jobs, processes, shard_timeout):
+        if status == "error":
+            raise HarnessError("shard failed:\n" + str(payload))
+        if status == "timeout":
+            print("INCONCLUSIVE: " + str(payload), flush=True)
+            r = ShardResult()
+            r.inconclusive = 1
+            r.bump("inconclusive/shard-timeout")
+            payload = r.as_dict()
         results.append(payload)
     return results
 
